@@ -43,7 +43,12 @@ func (h *HeapState) get(name, sort string) Term {
 	}
 	var t Term
 	if len(h.parents) == 0 {
+		fresh := !h.enc.declSet[name+h.base]
 		t = h.enc.declare(name+h.base, sort)
+		if fresh && h.base == "@0" && sort == arrSort(SInt, SInt) && !strings.HasPrefix(name, "L$") {
+			// modelling assumption: memory allocated during the call is not reachable from the pre-state
+			h.enc.axiom(fmt.Sprintf("(forall ((r Int)) (! (ref.old (ref.root (select %s r))) :pattern ((select %s r))))", t.S, t.S))
+		}
 	} else {
 		ts := make([]Term, len(h.parents))
 		same := true
@@ -275,6 +280,13 @@ func (e *Enc) load(h *HeapState, l Loc) Value {
 				e.assume(mk(SBool, "(forall ((qi! Int)) (! (= (select %s qi!) (select %s (eref %s qi!))) :pattern ((select %s qi!))))", a.S, hm.S, l.Ref.S, a.S), "array load")
 				return Sc{a}
 			}
+			if n, et, ok := arrayVLen(l.Typ); ok {
+				es := make([]Value, n)
+				for i := 0; i < n; i++ {
+					es[i] = e.load(h, elemLocOf(l, intLit(int64(i)), et))
+				}
+				return ArrayV{es}
+			}
 			e.note("load of array with composite elements (opaque)")
 			return Sc{e.freshConst("opaquearr", SInt)}
 		}
@@ -335,6 +347,14 @@ func (e *Enc) store(h *HeapState, l Loc, v Value) {
 					nw.S, l.Ref.S, l.Ref.S, u.Len(), sc.T.S, old.S, nw.S), "array store")
 				h.set(fam, nw)
 				return
+			}
+			if n, et, ok := arrayVLen(l.Typ); ok {
+				if av, isArr := v.(ArrayV); isArr {
+					for i := 0; i < n; i++ {
+						e.store(h, elemLocOf(l, intLit(int64(i)), et), av.E[i])
+					}
+					return
+				}
 			}
 			e.note("store of array with composite elements (havoc)")
 			h.havocAll()
